@@ -147,6 +147,27 @@ pub fn close_ulps(a: f32, b: f32, ulps: u32) -> bool {
     (ord(a) - ord(b)).abs() <= ulps as i64
 }
 
+/// Is `ones` TRUE bits the "sparsity share" of a vector of length n? Documented: the minority
+/// share is rounded to two decimals and (share * n) bits are set. Which neighbouring integer a
+/// fractional product becomes is not documented (README: "(sparsity * n) 'true' values"), so both
+/// are accepted; an integral product must be met exactly.
+pub fn true_count_ok(n: usize, sp: f32, ones: usize) -> bool {
+    let minority = sp.min(1.0 - sp) as f64;
+    let m100 = 100.0 * minority;
+    let cands: Vec<f64> = if (m100 - m100.floor() - 0.5).abs() < 1e-3 { vec![m100.floor(), m100.ceil()] } else { vec![m100.round()] };
+    for c in cands {
+        let s2 = c / 100.0;
+        let eff = if sp > 0.5 { 1.0 - s2 } else { s2 };
+        let x = eff * n as f64;
+        let xi = x.round();
+        let ok = if (x - xi).abs() < 1e-6 * (n.max(1) as f64) { ones as f64 == xi } else { ones as f64 == x.floor() || ones as f64 == x.ceil() };
+        if ok {
+            return true;
+        }
+    }
+    false
+}
+
 fn subst(t: &SItem, pattern: &SItem, sub: &SItem) -> SItem {
     if t == pattern {
         return sub.clone();
@@ -1462,10 +1483,9 @@ pub fn check_fired(name: &str, pre: &Snap, post: &Snap) -> RefResult {
             if post.bv.len() != e.bv.len() + 1 || post.bv[0].len() != n as usize {
                 return bad(format!("BOOLVECTOR.RAND size {} sparsity {}: expected one vector of that length: {}", n, sp, e.diff_text(post)));
             }
-            let ones = post.bv[0].iter().filter(|b| **b).count() as f64;
-            let want = sp as f64 * n as f64;
-            if (ones - want).abs() > 0.005 * n as f64 + 1.0 {
-                return bad(format!("BOOLVECTOR.RAND size {} sparsity {}: {} TRUE bits, expected about {}", n, sp, ones, want));
+            let ones = post.bv[0].iter().filter(|b| **b).count();
+            if !true_count_ok(n as usize, sp, ones) {
+                return bad(format!("BOOLVECTOR.RAND size {} sparsity {}: {} TRUE bits, expected the sparsity share {} (sparsity to two decimals, share to a neighbouring integer)", n, sp, ones, sp as f64 * n as f64));
             }
             e.bv.insert(0, post.bv[0].clone());
             mism(&e, post)
